@@ -20,6 +20,9 @@ def programs(quick, seed):
                                          L('Ok', 'bool', 'opt', tag='ok'), L('Name', 'string', tag='name'),
                                          G('Address', [L('City', 'string', 'opt', tag='city'), G('Geo', [L('Lat', 'float64', tag='lat'), L('Lon', 'float64', 'opt', tag='lon')], 'opt', tag='geo')], 'opt', tag='address'),
                                          G('Meta', [L('Flag', 'bool', tag='flag'), L('Count', 'int64', tag='count')], tag='meta')])
+    # group paths whose names concatenate to the same string (a.b vs ab; a.bc vs ab.c)
+    P['rconcat1'] = progs.Program('rconcat1', [L('Id', 'int64', tag='id'), G('A', [G('B', [L('X', 'int32', tag='x')], 'opt', tag='b')], tag='a'), G('Ab', [L('Y', 'string', 'opt', tag='y'), L('Z', 'float64', tag='z')], 'opt', tag='ab')])
+    P['rconcat2'] = progs.Program('rconcat2', [G('A', [G('Bc', [L('X', 'int32', tag='x')], tag='bc')], 'opt', tag='a'), G('Ab', [G('C', [L('Y', 'bool', 'opt', tag='y')], 'opt', tag='c')], tag='ab')])
     return P
 
 
